@@ -1,7 +1,10 @@
 // pvx: bounded exhaustive exploration of malramsay64/pypacking (see /verif/DESIGN.md).
 
+mod cli;
 mod common;
 mod geo1;
+mod mc_props;
+mod mcx;
 mod oracle;
 mod states;
 mod sym;
@@ -42,6 +45,12 @@ fn main() {
     };
     match prop {
         "C02" => geo1::c02(tier),
+        "C05" => mc_props::c05(tier),
+        "C06" => mc_props::c06(tier),
+        "C07" => mc_props::c07(tier),
+        "C18" => mc_props::c18(tier),
+        "C19" => mc_props::c19(tier),
+        "C20" => mc_props::c20(tier),
         "C12" => geo1::c12(tier),
         "C13" => geo1::c13(tier),
         "C14" => geo1::c14(tier),
@@ -55,7 +64,14 @@ fn main() {
 fn replay(prop: &str, path: &str) -> ! {
     let text = std::fs::read_to_string(path).unwrap_or_else(|e| machinery_error(&format!("{}: {}", path, e)));
     let doc: serde_json::Value = serde_json::from_str(&text).unwrap_or_else(|e| machinery_error(&format!("{}: {}", path, e)));
-    println!("replay of {} for {}:", path, prop);
+    println!("replay of {} for {}: {}", path, prop, doc["what"]);
+    let case = &doc["case"];
+    if case.get("engine").and_then(|e| e.as_str()).map(|e| e.starts_with("mcx")).unwrap_or(false) {
+        mc_props::replay(case);
+    }
+    if case.get("engine").and_then(|e| e.as_str()) == Some("cli") {
+        cli::replay_cli(case);
+    }
     println!("{}", serde_json::to_string_pretty(&doc).unwrap());
-    machinery_error("replay not implemented for this property")
+    machinery_error("replay not implemented for this case")
 }
